@@ -81,7 +81,44 @@ def fail(name, st, model):
                             expected="row i*n2+j == (b1[i], b2[j])", inputs=vals))
 
 
+def native_get_batch():
+    import numpy as np, jax
+    from jinns.data._DataGenerators import CubicMeshPDENonStatio
+    msgs = []
+    for dim, cart, tb, ob, bb in [(1, False, 3, 3, None), (2, False, 2, 2, 2), (1, True, 2, 3, 1), (2, True, 3, 2, 2)]:
+        g = CubicMeshPDENonStatio(key=jax.random.PRNGKey(4), n=6, nb=(8 if dim == 2 else 2), nt=6, omega_batch_size=ob,
+                                  omega_border_batch_size=(bb if dim == 2 else 1), temporal_batch_size=tb, dim=dim,
+                                  min_pts=(0.0,) * dim, max_pts=(1.0,) * dim, tmin=5.0, tmax=6.0, cartesian_product=cart)
+        for call in range(4):
+            g1, x = g.inside_batch(); g2, dx = g1.border_batch(); g3, t = g2.temporal_batch()
+            g, b_ = g.get_batch()
+            tx, tdx = np.asarray(b_.times_x_inside_batch), np.asarray(b_.times_x_border_batch)
+            t, x, dx = np.asarray(t), np.asarray(x), np.asarray(dx)
+            if cart:
+                exp = np.array([[t[i]] + list(x[j]) for i in range(tb) for j in range(ob)])
+            else:
+                exp = np.concatenate([t[:, None], x], axis=1)
+            if tx.shape != exp.shape or not np.allclose(tx, exp):
+                msgs.append(f"dim={dim}, cartesian={cart}: interior batch of shape {tx.shape}, expected the {'product' if cart else 'row-wise pairing'} of shape {exp.shape}")
+                return msgs
+            nbr = dx.shape[0]
+            if cart or dim == 1:
+                expb = np.array([[[t[i]] * dx.shape[-1]] + [list(r) for r in dx[j]] for i in range(tb) for j in range(nbr)])
+            else:
+                expb = np.concatenate([np.repeat(t[:, None, None], dx.shape[-1], axis=2), dx], axis=1)
+            if tdx.shape != expb.shape or not np.allclose(tdx, expb):
+                msgs.append(f"dim={dim}, cartesian={cart}: border batch of shape {tdx.shape}, expected shape {expb.shape}")
+                return msgs
+    return None
+
+
 def native_product(vals):
+    try:
+        m = native_get_batch()
+        if m:
+            return m
+    except Exception:
+        pass
     import numpy as np
     import jax.numpy as jnp
     from jinns.data._DataGenerators import make_cartesian_product
